@@ -302,6 +302,10 @@ type evidence struct {
 	Violations  int                    `json:"violations"`
 }
 
+// DebugOnly reports whether VERIF_DEBUG_ONLY names this part of a check (development aid: run one
+// part of a check alone; never set by the registered commands).
+func DebugOnly(part string) bool { return os.Getenv("VERIF_DEBUG_ONLY") == part }
+
 // ExtraCoverage, when set, contributes process-wide monitor counters to every evidence file.
 var ExtraCoverage func() map[string]interface{}
 
